@@ -562,3 +562,68 @@ impl Group for ReadAll {
         format!("{} {}", if p[5] == "umax" { "to-end" } else { "max" }, if p[2] == "0" { "full-buffer" } else { "spare" })
     }
 }
+
+/// a std `Read` that hands out its data in scripted pieces
+struct Pieces { data: Vec<u8>, pos: usize, pattern: Vec<usize>, call: usize }
+impl std::io::Read for Pieces {
+    fn read(&mut self, buf: &mut [u8]) -> std::io::Result<usize> {
+        let want = self.pattern[self.call % self.pattern.len()].max(1);
+        self.call += 1;
+        let n = want.min(buf.len()).min(self.data.len() - self.pos);
+        buf[..n].copy_from_slice(&self.data[self.pos..self.pos + n]);
+        self.pos += n;
+        Ok(n)
+    }
+}
+
+/// `kvarn_async::read_to_async`: a std reader behind tokio's `AsyncRead`, read to the end
+pub struct Adaptor;
+impl Group for Adaptor {
+    fn name(&self) -> &'static str {
+        "c18.adaptor"
+    }
+    fn rule(&self) -> &'static str {
+        "kvarn_async::read_to_async around a std reader that delivers 0-4096 bytes in scripted pieces (1, 2, 31, 32, 33, 1000 …), read with tokio's read_to_end (a ReadBuf over uninitialised spare capacity), with read_buf into a Vec, and with read into an initialised array; oracle: exactly the reader's bytes, in order, no panic; non-trivial = more than one piece"
+    }
+    fn generate(&self, ctx: &Ctx, rng: &mut Rng) -> Vec<String> {
+        let n = if ctx.mode == Mode::Quick { 300 } else { 5000 };
+        let mut v = vec!["c18.adaptor 0 [1] end".to_owned(), "c18.adaptor 5 [1] end".to_owned(), "c18.adaptor 5 [5] array".to_owned(), "c18.adaptor 70 [32] buf".to_owned()];
+        for _ in 0..n {
+            let len = *rng.pick(&[0usize, 1, 31, 32, 33, 100, 1000, 4096, 5000]);
+            let pat = list((0..rng.range(1, 3)).map(|_| rng.pick(&[1usize, 2, 31, 32, 33, 1000, 8192]).to_string()));
+            v.push(format!("c18.adaptor {len} {pat} {}", rng.pick(&["end", "buf", "array"])));
+        }
+        v
+    }
+    fn compare_with_model(&self, _line: &str) -> bool {
+        false
+    }
+    fn run_impl(&self, _ctx: &Ctx, line: &str) -> String {
+        use tokio::io::AsyncReadExt;
+        let p: Vec<&str> = line.split(' ').collect();
+        let len: usize = p[1].parse().unwrap();
+        let data = gen_bytes(len, 3);
+        let pattern: Vec<usize> = parse_list(p[2]).unwrap().iter().map(|s| s.parse().unwrap()).collect();
+        let mut rd = kvarn_async::read_to_async(Pieces { data: data.clone(), pos: 0, pattern, call: 0 });
+        let rt = tokio::runtime::Builder::new_current_thread().build().unwrap();
+        let got: Vec<u8> = rt.block_on(async {
+            let mut out = Vec::new();
+            match p[3] {
+                "end" => { rd.read_to_end(&mut out).await.unwrap(); }
+                "buf" => { out.reserve(64); while rd.read_buf(&mut out).await.unwrap() > 0 { if out.capacity() == out.len() { out.reserve(64); } } }
+                _ => { let mut a = [0u8; 48]; loop { let n = rd.read(&mut a).await.unwrap(); if n == 0 { break; } out.extend_from_slice(&a[..n]); } }
+            }
+            out
+        });
+        if got == data { "same".into() } else { format!("DIFFERENT {} bytes for {}", got.len(), data.len()) }
+    }
+    fn oracle(&self, _ctx: &Ctx, line: &str, out: &str) -> Option<(String, String)> {
+        if out != "same" {
+            return Some((format!("adaptor:{line}"), format!("read_to_async did not deliver the reader's bytes: {out}")));
+        }
+        None
+    }
+    fn nontrivial(&self, line: &str, _o: &str) -> bool {
+        line.split(' ').nth(1).and_then(|l| l.parse::<usize>().ok()).unwrap_or(0) > 1
+    }
+}
